@@ -97,6 +97,11 @@ func c08Build(rng *rand.Rand, nHot, nCold, rounds, hotBlock int) *c08Hist {
 				sf := t.Field(f)
 				if sf.PkgPath == "" && !structish(sf.Type) && rng.Intn(2) == 0 {
 					c.RM[sf.Name] = gen.RuleList(rng, sf.Type, 2, fmt.Sprintf("o%d_%d", id, f), gen.MsgUnique, false)
+					if rng.Intn(2) == 0 {
+						if pr := gen.PerturbRules(rng, sf.Tag.Get(c.Tag), sf.Type, fmt.Sprintf("o%d_%d", id, f)); pr != "" {
+							c.RM[sf.Name] = pr // same rule keys as the tag, other arguments
+						}
+					}
 				}
 			}
 		}
@@ -295,9 +300,9 @@ var c08Configs = []string{"default", "lru512", "lru0", "lru1", "lru2", "lru3", "
 
 func c08Sizes(t core.Tier) (nHot, nCold, rounds, hotBlock int) {
 	if t == core.Thorough {
-		return 60, 620, 12, 2500
+		return 150, 620, 12, 6000
 	}
-	return 40, 620, 3, 700
+	return 90, 620, 3, 2500
 }
 
 func init() {
